@@ -138,7 +138,7 @@ PLANS = {
                 "a history in which at least two registry operations of one service type overlapped in time",
                 ["C08.R1.history_linearizable", "C08.R1.concurrent_history", "C08.R_once.default_spawns", "C08.ops.lookup", "C08.ops.register_ok",
                  "C08.ops.register_refused", "C08.ops.replace", "C08.ops.unregister", "C08.ops.try_lookup_some", "C08.ops.try_lookup_none",
-                 "C08.ops.already_running_none", "C08.ops.already_running_true", "C08.ops.already_running_false", "C08.ops.termination"],
+                 "C08.ops.previous_entry_identified", "C08.ops.already_running_none", "C08.ops.already_running_true", "C08.ops.already_running_false", "C08.ops.termination"],
                 {"rule": "histories of from_registry / setup / register / replace / unregister / try_from_registry / already_running / stop / self-termination "
                          "issued by 1-4 client tasks on 1-2 service types (<= 14 registry ops), executed on the seeded vexec; each per-type history (operations "
                          "with begin/return stamps and observed results, instance identities learnt from replies, instance terminations as instantaneous events) "
